@@ -510,8 +510,29 @@ func (e *Env) evalSel(x ESel) TV {
 	return TV{vc.readLoc(e.heap, floc, ft), ft}
 }
 
+// ghostCompTerm returns the current term and element type of a declared ghost component.
+func (e *Env) ghostCompTerm(name string) (Term, SType, bool) {
+	g, ok := e.vc.w.ghostComps[name]
+	if !ok {
+		return Term{}, SType{}, false
+	}
+	if _, shadow := e.vars[name]; shadow {
+		return Term{}, SType{}, false
+	}
+	ge := &Env{vc: e.vc, pkgPath: g.Pkg, cf: e.vc.w.cfByPkg[g.Pkg]}
+	ty := ge.resolveType(g.T)
+	comp := "ghost:g." + name
+	e.vc.registerComp(comp, compInfo{Sort: ArrSort(SInt, ty.SortOf()), Depth: 1, Ghost: true})
+	return e.vc.hget(e.heap, comp), ty, true
+}
+
 func (e *Env) evalIndex(x EIndex) TV {
 	vc := e.vc
+	if id, ok := x.X.(EIdent); ok {
+		if ct, ty, isGhost := e.ghostCompTerm(id.Name); isGhost {
+			return TV{Select(ct, e.asInt(e.eval(x.I))), ty}
+		}
+	}
 	base := e.eval(x.X)
 	idx := e.asTerm(e.eval(x.I))
 	switch base.T.K {
@@ -620,6 +641,16 @@ func (e *Env) evalCall(x ECall) TV {
 	case "any":
 		v := e.eval(x.Args[0])
 		return TV{vc.box(e.asTerm(v), v.T), FromGo(types.Universe.Lookup("any").Type())}
+	case "iscopy":
+		a, b := e.eval(x.Args[0]), e.eval(x.Args[1])
+		return TV{vc.isCopy(e.asInt(a), e.asInt(b)), tBool}
+	case "deref":
+		v := e.eval(x.Args[0])
+		if v.T.K != KPtr || !v.T.Elem.single() {
+			efail("deref of %s", v.T)
+		}
+		loc := Loc{canonicalPrefix(*v.T.Elem), []Term{e.asInt(v)}}
+		return TV{vc.readLoc(e.heap, loc, *v.T.Elem), *v.T.Elem}
 	case "implements":
 		// implements(x, InterfaceType-as-identifier)
 		v := e.eval(x.Args[0])
@@ -1141,4 +1172,12 @@ func (vc *VC) elemLanes(el SType) []lane {
 		out = append(out, lane{name, ft.SortOf(), ft})
 	}
 	return out
+}
+
+
+// isCopy is the uninterpreted "is a deep copy of" relation on reference-like values; the only fact
+// known about it is that nil is copied to nil and only nil is.
+func (vc *VC) isCopy(r, v Term) Term {
+	vc.declareOnce("iscopy", "(declare-fun iscopy (Int Int) Bool)\n(assert (forall ((r! Int) (v! Int)) (! (=> (iscopy r! v!) (= (= r! 0) (= v! 0))) :pattern ((iscopy r! v!)))))")
+	return app(SBool, "iscopy", r, v)
 }
